@@ -388,6 +388,43 @@ def t_itemsloop(tree: ast.AST) -> int:
     return count[0]
 
 
+def t_extractpred(tree: ast.AST) -> int:
+    """every compound `if` test of a method (and/or/not/comparison over self and locals) extracted into a private predicate method
+    `_pred_N(self, <locals>)` of the same class and called in place (experimental - not part of the thorough tier)."""
+    count = [0]
+    for cls in ast.walk(tree):
+        if not isinstance(cls, ast.ClassDef):
+            continue
+        new_methods = []
+        for fn in cls.body:
+            if not isinstance(fn, (ast.FunctionDef,)) or not fn.args.args or fn.args.args[0].arg != "self":
+                continue
+            if any(isinstance(d, ast.Name) and d.id in ("staticmethod", "classmethod") for d in fn.decorator_list):
+                continue
+            bound = {a.arg for a in fn.args.args + fn.args.kwonlyargs} | {x.id for x in ast.walk(fn) if isinstance(x, ast.Name) and isinstance(x.ctx, ast.Store)}
+            if fn.args.vararg:
+                bound.add(fn.args.vararg.arg)
+            if fn.args.kwarg:
+                bound.add(fn.args.kwarg.arg)
+            for node in ast.walk(fn):
+                if not isinstance(node, ast.If) or not isinstance(node.test, (ast.BoolOp, ast.Compare)):
+                    continue
+                t = node.test
+                if any(isinstance(x, (ast.NamedExpr, ast.Await, ast.Yield, ast.Lambda, ast.ListComp, ast.GeneratorExp, ast.DictComp, ast.SetComp)) for x in ast.walk(t)):
+                    continue
+                free = sorted({x.id for x in ast.walk(t) if isinstance(x, ast.Name) and x.id in bound and x.id != "self"})
+                count[0] += 1
+                nm = f"_pred_{count[0]}"
+                m = ast.FunctionDef(name=nm, args=ast.arguments(posonlyargs=[], args=[ast.arg(arg="self")] + [ast.arg(arg=a) for a in free],
+                                                                 kwonlyargs=[], kw_defaults=[], defaults=[]),
+                                    body=[ast.Return(value=t)], decorator_list=[], type_params=[])
+                new_methods.append(ast.copy_location(m, node))
+                node.test = ast.copy_location(ast.Call(func=ast.Attribute(value=ast.Name(id="self", ctx=ast.Load()), attr=nm, ctx=ast.Load()),
+                                                        args=[ast.Name(id=a, ctx=ast.Load()) for a in free], keywords=[]), t)
+        cls.body.extend(new_methods)
+    return count[0]
+
+
 TRANSFORMS: List[Tuple[str, str, Callable[[ast.AST], int]]] = [
     ("roundtrip", "every module replaced by ast.unparse(ast.parse(src)) (comments, layout, quoting gone)", t_roundtrip),
     ("rename", "every purely local variable of every function renamed", t_rename),
